@@ -31,7 +31,7 @@ class Lock:
 
 # ---------------------------------------------------------------- builds
 
-def build_tools():
+def build_tools(race=False):
     """extractor + harness, rebuilt from /repo's working tree on every run"""
     os.makedirs(BUILD, exist_ok=True)
     with Lock('go'):
@@ -40,6 +40,11 @@ def build_tools():
                           cwd=os.path.join(ROOT, 'harness'), env=GOENV)
         if rc != 0:
             return False, 'harness build failed:\n' + out + err
+        if race:
+            rc, out, err = sh(['go', 'build', '-race', '-tags', 'verif', '-o', os.path.join(BUILD, 'harness-race'), '.'],
+                              cwd=os.path.join(ROOT, 'harness'), env=GOENV)
+            if rc != 0:
+                return False, 'harness -race build failed:\n' + out + err
         if os.path.isdir(os.path.join(ROOT, 'extract')):
             rc, out, err = sh(['go', 'build', '-o', os.path.join(BUILD, 'extract'), '.'],
                               cwd=os.path.join(ROOT, 'extract'), env=GOENV)
@@ -140,15 +145,28 @@ def audit(prop):
 
 # ---------------------------------------------------------------- running
 
-def run_harness(name, tier, seed, arg=None, shards=1):
+def race_reports(log):
+    """splits the race detector's output into reports"""
+    reps = []
+    for block in re.split(r'={18,}', log):
+        if 'WARNING: DATA RACE' in block:
+            reps.append(block.strip())
+    for m in re.finditer(r'fatal error: concurrent map[^\n]*', log):
+        reps.append(m.group(0))
+    return reps
+
+
+def run_harness(name, tier, seed, arg=None, shards=1, race=False):
     """runs the Go harness (in `shards` parallel processes; direct-call cases are only emitted by shard 0)"""
     d = tempfile.mkdtemp(prefix='verif-%s-' % name)
     env = dict(GOENV, GOMEMLIMIT='3GiB')
+    if race:
+        env['GORACE'] = 'halt_on_error=0 exitcode=66 history_size=3'
     t = time.time()
     procs = []
     for i in range(shards):
         out = os.path.join(d, 'cases%d.jsonl' % i)
-        cmd = [os.path.join(BUILD, 'harness'), '-tier', tier, '-seed', str(seed), '-out', out,
+        cmd = [os.path.join(BUILD, 'harness-race' if race else 'harness'), '-tier', tier, '-seed', str(seed), '-out', out,
                '-shard', str(i), '-shards', str(shards)]
         if arg:
             cmd += ['-arg', arg]
@@ -165,7 +183,7 @@ def run_harness(name, tier, seed, arg=None, shards=1):
             so = 'timeout'
         if p.returncode != 0:
             rc = p.returncode
-            log += so[-3000:]
+            log += so[-3000:] if not race else so[-60000:]
         if os.path.exists(out):
             with open(out) as f:
                 for line in f:
@@ -227,9 +245,19 @@ def evaluate(prop, harness_names, tier, seed, stats):
     violations, corr = [], []
     problem = None
     for name in harness_names:
-        rc, recs, log, wall = run_harness(name, tier, seed, shards=c.get('shards', 1))
+        rc, recs, log, wall = run_harness(name, tier, seed, shards=c.get('shards', 1), race=c.get('race', False))
+        if c.get('race'):
+            pat = re.compile(c.get('race_filter', '.'))
+            for rep in race_reports(log):
+                if pat.search(rep):
+                    violations.append({'case': '', 'src': 'schedule found by the race detector (seed %d)' % seed, 'impl': 'race',
+                                       'oracle': 'data race on the shared tables', 'report': rep[:6000], 'why': 'Go race detector report', 'harness': name})
+                else:
+                    stats['other_races'] = stats.get('other_races', 0) + 1
+            if rc == 66:
+                rc = 0
         if rc != 0:
-            problem = 'harness %s exited %d: %s' % (name, rc, log)
+            problem = 'harness %s exited %d: %s' % (name, rc, log[-3000:])
             # a crash of the harness process is itself an observation (e.g. Go runtime fatal)
         lines = [r['case'] for r in recs if r.get('case') and not r.get('skip')]
         outs = run_driver(lines)
@@ -288,7 +316,7 @@ def check(prop, tier, seed, replay=None):
     broken = []   # descriptions of proof obligations / ties that no longer check
     notes = []
 
-    ok, msg = build_tools()
+    ok, msg = build_tools(race=c.get('race', False))
     if not ok:
         # cannot build against the current tree: nothing is shown
         p = write_replay(prop, 'build', {'property': prop, 'broken': 'tool build', 'log': msg})
@@ -419,7 +447,7 @@ def write_evidence(prop, tier, seed, c, stats, obligations, discharged, wall, nv
             'correspondence_disagreements': corr,
             'known_findings_hit': list(known_hits),
             'exhaustive': bool(c.get('exhaustive', False)),
-            'notes': notes,
+            'notes': notes, 'races_outside_the_tables': stats.get('other_races', 0),
         },
         'assumptions': c['assumptions'],
         'wall_s': round(wall, 2),
